@@ -3,6 +3,5 @@ _NOTYET = 'check not built yet in this round (planned, see DESIGN.md section 4);
 NA = {
 
 
- 'C19': _NOTYET,
  'C17': 'accuracy and monotonicity of quantile approximations against transcendental functions (normal, Student, chi-square) cannot be expressed to z3/cvc5/CBMC; bit-precise floating point through log/exp/pow has no model here (DESIGN.md section 9)',
 }
